@@ -438,6 +438,6 @@ func ifnil[T any](p *T) T {
 }
 
 func TestC11_Hammer(t *testing.T) {
-	p := kit.Prop[C11Case]{ID: "C11", Name: "Hammer", Quick: 100, Thorough: 4000, Gen: genC11, Run: runC11}
+	p := kit.Prop[C11Case]{ID: "C11", Name: "Hammer", Quick: 120, Thorough: 10000, Gen: genC11, Run: runC11}
 	p.Execute(t)
 }
